@@ -79,9 +79,10 @@ def _decorator_names(node):
 
 
 class Repo:
-    def __init__(self, root=None, overrides=None):
+    def __init__(self, root=None, overrides=None, pkg=None):
         """overrides: {relpath: source text} used by the self-test (in-memory mutants)."""
         self.root = root or REPO
+        self.pkg = pkg or PKG
         self.modules = {}
         self.funcs = {}        # qualname -> FuncInfo  (incl. nested: parent.<name>)
         self.classes = {}      # qualname -> ClassInfo
@@ -91,7 +92,7 @@ class Repo:
 
     # ------------------------------------------------------------------ loading
     def _load(self):
-        pkgdir = os.path.join(self.root, PKG)
+        pkgdir = os.path.join(self.root, self.pkg)
         for dirpath, _dirs, files in os.walk(pkgdir):
             for fn in sorted(files):
                 if not fn.endswith('.py'):
